@@ -43,6 +43,31 @@ PROPS = {
         "assumptions": ["templates were validated on the pinned tree; comment blocks adjacent to an ignore-marked comment, Typst strings, "
                         "JSDoc tags are 'don't care'"],
     },
+    "C12": {
+        "level": "exploration",
+        "steps": [("hv", "C12", {})],
+        "rule": "pairs (P, D): P = rule sentence / generated clause / hostile Unicode without double quotes, closed by a terminator and a blank line, "
+                "D = arbitrary further text; compare lints(P++D) with lints(P) + shift(lints(D), |P|) as multisets, all rules on, fresh linter per call; "
+                "non-trivial = P has >= 1 lint and D is non-empty; distinct = hash(P, D)",
+        "assumptions": ["multiset comparison: the statement fixes no order across rules", "cache effects are excluded here (fresh linter per call); they belong to C05"],
+    },
+    "C17": {
+        "level": "exploration",
+        "steps": [("hv", "C17", {})],
+        "rule": "n = 0..100000 exhaustively x {st,nd,rd,th} x 4 letter cases alone and in one sentence frame each, plus random n < 2^53 stratified on n mod 100 "
+                "and magnitude in 8 sentence frames; oracle = integer ordinal rule; checks lint <=> wrong suffix, span = the two suffix letters, suggestion = correct "
+                "suffix, silence after applying it; non-trivial = wrong-suffix case; distinct = hash(n mod 100, suffix, #digits, frame)",
+        "assumptions": ["only the CorrectNumberSuffix rule is enabled"],
+        "exhaustive_part": "all n in 0..=100000 x 4 suffixes x 4 letter cases",
+    },
+    "C18": {
+        "level": "exploration",
+        "steps": [("hv", "C18", {})],
+        "rule": "single-paragraph texts: every rule sentence (+4 suffix variants with initialisms, curly-apostrophe proper nouns, dotted I, sharp s, Kelvin sign), "
+                "generated clauses and hostile Unicode strings, through make_title_case_str and harper_wasm::to_title_case; checks equal length, per-position "
+                "case-only (or apostrophe) difference, first word upper-case if ASCII letter, idempotence; non-trivial = output differs from input; distinct = hash(text, changed positions)",
+        "assumptions": ["'first word-like token' is taken from harper's own tokenisation of the input"],
+    },
     "C13": {
         "level": "exploration",
         "steps": [("hv", "C13x", {}), ("hv", "C13s", {"_scale": 0.5})],
